@@ -1,7 +1,9 @@
 """C02 — genetic operators only produce well-formed, well-typed individuals.
 
 Lean: Vita/C02/{Model,Lemmas,Props}.lean (WF, operators as functions of explicit draws, decidable
-step relations, closure theorem).  Tie: relational refinement — harness/c02_ops.cc runs the REAL
+step relations, closure theorem).  Tie 1: tools/translate_mep_ops.py regenerates Vita/C02/Gen.lean (loop
+bounds, draw ranges, index expressions of the operators, from the clang AST) and Props.lean proves that
+they denote the model's operators (gen_*).  Tie 2: relational refinement — harness/c02_ops.cc runs the REAL
 operators (every crossover flavour forced through the VITA_VERIF hook) on real individuals and
 prints pre/post genomes; the compiled Lean driver decides `WF post` and the operator's `Step`
 relation for every observed call; an independent C++ oracle (well-formedness + provenance, written
@@ -13,8 +15,13 @@ import glob
 import json
 import os
 import re
+import sys
 
 from vlib import common as C
+
+sys.path.insert(0, os.path.join(C.ROOT, "tools"))
+import translate_mep_ops  # noqa: E402
+from cxx2lean import Refuse  # noqa: E402
 
 SAN = {"ASAN_OPTIONS": "detect_leaks=1:abort_on_error=0:exitcode=99:allocator_may_return_null=1",
        "UBSAN_OPTIONS": "print_stacktrace=1:halt_on_error=1:exitcode=98"}
@@ -100,17 +107,48 @@ def san_kind(stderr):
 
 def run(chk, replay=None):
     broken = []
+    # loop bounds / draw ranges / index expressions of the operators, from the clang AST of the current
+    # sources (Gen.lean); Props.lean proves (gen_*) that they denote the model's operators
+    gen_changed = False
+    try:
+        tables, gen_changed = translate_mep_ops.emit(os.path.join(C.LEAN, "Vita", "C02", "Gen.lean"))
+        chk.cov["translated"] = {"ctor_writes": len(tables["ctor"]), "destroy_writes": len(tables["destroy"]),
+                                 "crossover_cases": [n for _, n in tables["xoverCases"]],
+                                 "integer_draws": {k[6:]: len(tables[k]["draws"]) for k in tables if k.startswith("xover_")},
+                                 "gene_arg_bits": tables["geneArgs"]["bits"]}
+        chk.cov["gen_changed_vs_committed"] = bool(gen_changed)
+    except Refuse as e:
+        broken.append("tools/translate_mep_ops.py refuses the current sources (unknown shape of an operator): %s" % e)
     ok, msg = chk.prove("Vita.C02.Props", ["Vita.C02.Props", "c02_driver"])
     if not ok:
-        broken.append("theorems of Vita.C02.Props no longer check: " + msg)
+        broken.append(("the bounds extracted from the current C++ sources (Vita/C02/Gen.lean, regenerated) differ from "
+                       "the committed ones and the theorems of Vita.C02.Props no longer check: " if gen_changed else
+                       "theorems of Vita.C02.Props no longer check: ") + msg)
     drv_ok = os.path.exists(C.driver_path("c02_driver")) and C.lake_build(["c02_driver"])[0]
     if not drv_ok:
         broken.append("the C02 driver does not build")
 
     exe = C.build_harness("c02_ops", "asan")
-    rc, sets_out, se = C.run_harness(exe, ["sets"], env=SAN)
+    # sets 9.. are generated from the seed: a replay uses the seed recorded in the replay file
+    set_seed = chk.seed
+    if replay:
+        rj = json.load(open(replay))
+        set_seed = int((rj.get("replay") or {}).get("seed", rj.get("seed", chk.seed)))
+    rc, sets_out, se = C.run_harness(exe, ["sets", str(set_seed)], env=SAN)
     ss_lines = [l for l in sets_out.splitlines() if l.startswith("ss ")]
     chk.cov["symbol_sets"] = len(ss_lines)
+    if rc != 0 or not ss_lines:
+        broken.append("the harness cannot build its symbol sets: rc=%s %s" % (rc, se[-300:]))
+    set_arity = {}
+    for l in ss_lines:           # ss <id> <cats> <n> { opcode cat parametric weight arity argcat* }
+        t = [int(x) for x in l.split()[1:]]
+        p, ars = 3, []
+        for _ in range(t[2]):
+            ars.append(t[p + 4])
+            p += 5 + t[p + 4]
+        set_arity[t[0]] = ars
+        chk.cov.setdefault("symbol_set_arities", {})[str(t[0])] = \
+            {"categories": t[1], "arities": sorted(ars), "heap": sum(1 for a in ars if a > 4)}
 
     # ---- what to run ------------------------------------------------------
     jobs = []          # (label, args, stdin)
@@ -123,7 +161,7 @@ def run(chk, replay=None):
         elif a and a[0] == "run" and r.get("scenario") is not None:   # a generated scenario
             jobs.append(("replay", ["run", a[1], str(r["scenario"]), str(r["scenario"] + 1)], None))
         elif r.get("request"):
-            jobs.append(("replay", ["replay", str(chk.seed), "25"], r["request"] + "\n"))
+            jobs.append(("replay", ["replay", str(set_seed), "25"], r["request"] + "\n"))
         probe_big = r.get("probe") == "big"
         if not jobs and not probe_big:                   # a broken proof / correspondence: run everything
             replay, probe_big = None, True
@@ -132,9 +170,9 @@ def run(chk, replay=None):
     else:
         corpus = sorted(glob.glob(os.path.join(C.ROOT, "corpus", "C02", "*.req")))
         for f in corpus:
-            jobs.append(("corpus:" + os.path.basename(f), ["replay", str(chk.seed), "8"], open(f).read()))
+            jobs.append(("corpus:" + os.path.basename(f), ["replay", str(set_seed), "8"], open(f).read()))
         chk.cov["corpus_files"] = len(corpus)
-        nscen = 3000 if chk.tier == "quick" else 200000
+        nscen = 3000 if chk.tier == "quick" else 140000     # ≈ 3 M calls: ≤ 15 min on a box with load 60
         nshard = 4 if chk.tier == "quick" else 64
         step = (nscen + nshard - 1) // nshard
         for s in range(nshard):
@@ -204,7 +242,7 @@ def run(chk, replay=None):
             chk.violation("the harness died (rc=%s, %s) in a real operator call (%s): %s"
                           % (d["rc"], kind, opname, (req or "(reported at exit)")[:200]),
                           {"request": req, "stderr": d["stderr"], "scenario": d["scenario"],
-                           "seed": chk.seed, "args": args}, tags=tags)
+                           "seed": set_seed, "args": args}, tags=tags)
         if not recs:
             continue
         for i, (lline, o) in enumerate(recs):
@@ -229,6 +267,16 @@ def run(chk, replay=None):
                     chk.count("mutation:pgm=%d%%" % info["pgm%"])
             if "team" in info:
                 chk.count("team:%d" % info["team"])
+            # REAL argument counts of the genes of the result, overwrites across the inline/heap boundary
+            for k, v in info.items():
+                if k.startswith("ar") and k[2:].isdigit():
+                    chk.count("result-genes:args=" + ("9+" if k == "ar9" else k[2:]), v)
+                elif k in ("shrink", "grow", "heap2heap"):
+                    chk.count("overwrite:%s:%s" % (op, k), v)
+                elif k in ("xshort", "xlong"):
+                    chk.count("overwrite:%s:parents-differ-in-length:%s-gene-kept" % (op, k[1:]), v)
+            if max(set_arity.get(info.get("set"), [0]) or [0]) > 4:
+                chk.count("calls-on-sets-with-heap-genes")
             if "pl" in info and info["pl"] > 1:
                 chk.count("patch>1")
             if o["expect"] == "bad":
@@ -241,7 +289,7 @@ def run(chk, replay=None):
                 continue
             tags = {"op": op, "set": info.get("set"), "rows": rows, "why": o["why"],
                     "flavour": FLAVOURS.get(info.get("flavour")), "lean": ans}
-            rep = {"request_line": lline, "oracle": o, "lean": ans, "seed": chk.seed, "args": args,
+            rep = {"request_line": lline, "oracle": o, "lean": ans, "seed": set_seed, "args": args,
                    "stdin": jstdin, "scenario": o["scenario"], "op_index": o["opn"]}
             if o["expect"] == "bad":
                 if cxx_ok or lean_ok:
@@ -310,11 +358,14 @@ def run(chk, replay=None):
 
     return chk.finish(
         level="proof",
-        checker_cmd="lake build Vita.C02.Props c02_driver && lake env lean <#print axioms for every theorem>",
+        checker_cmd="python3 tools/translate_mep_ops.py > lean/Vita/C02/Gen.lean && lake build Vita.C02.Props c02_driver && "
+                    "lake env lean <#print axioms for every theorem>",
         rule="one evaluation = one real operator call (random construction, mutation, 4 crossover flavours, "
-             "get_block, replace, destroy_block, cse, team construction/mutation/crossover) whose pre/post genomes "
+             "get_block, replace, destroy_block, cse, team construction (from a problem / from given members), "
+             "team mutation/crossover/inc_age) whose pre/post genomes "
              "are judged by the Lean driver (WF + Step relation), by the C++ oracle and by execution under "
              "ASan/UBSan; distinct = distinct request lines whose result differs from its operand(s)",
-        trusted=["Lean 4.33 kernel", "harness/c02_ops.cc (printing of genomes through operator[] / best() / age() / "
-                 "the VITA_VERIF flavour accessor)", "hand-written model Vita/C02/Model.lean (tied by the relational "
-                 "check only)", "g++ 12 ASan/UBSan", "contracts of std::uniform_int_distribution / bernoulli_distribution"])
+        trusted=["Lean 4.33 kernel", "tools/translate_mep_ops.py + cxx2lean.py (clang-14 JSON AST -> loop bounds, draw ranges, "
+                 "index expressions; shapes it does not know are refused)", "harness/c02_ops.cc (printing of genomes through operator[] / best() / age() / "
+                 "the VITA_VERIF flavour accessor)", "hand-written model Vita/C02/Model.lean (bounds and index expressions tied by translation + "
+                 "gen_* theorems, the rest by the relational check)", "g++ 12 ASan/UBSan", "contracts of std::uniform_int_distribution / bernoulli_distribution"])
